@@ -356,28 +356,45 @@ def scan_on(chk: Check, rule: str) -> None:
         for k, v in al.items():
             if isinstance(v, ast.Call) and attr_path(v.func) == ("range",) and len(v.args) == 2:
                 node_rng[k] = (_lin(v.args[0], nsym), _lin(v.args[1], nsym))
-        tests = [n for n in walk_no_nested(f.node) if isinstance(n, ast.If) and isinstance(n.test, ast.Call)
-                 and attr_path(n.test.func) == ("range",) and len(n.test.args) == 2]
+        # the test guarding the yield (the address-presence test aside)
+        tests = []
+        for n in walk_no_nested(f.node):
+            if isinstance(n, ast.If) and any(isinstance(y, ast.Yield) for s_ in n.body for y in ast.walk(s_)):
+                parts = n.test.values if isinstance(n.test, ast.BoolOp) and isinstance(n.test.op, ast.And) else [n.test]
+                parts = [p for p in parts if not (isinstance(p, ast.Compare) and isinstance(p.ops[0], (ast.Is, ast.IsNot)))]
+                if parts:
+                    tests.append((n, parts))
         if len(tests) != 1:
-            raise Outside("expected one 'if range(max(..), min(..)):' intersection test")
-        a, b = tests[0].test.args
-        if not (isinstance(a, ast.Call) and attr_path(a.func) == ("max",) and
-                isinstance(b, ast.Call) and attr_path(b.func) == ("min",)):
-            raise Outside("intersection is not range(max(..), min(..))")
-        lows = [_lin(x, nsym) for x in a.args]
-        highs = [_lin(x, nsym) for x in b.args]
+            raise Outside("expected one intersection test guarding the yield")
         cons: List[Con] = []
-        for lo in lows:
-            for hi in highs:
-                try:
-                    cons.extend(_constraint(lo, "Lt", hi))
-                except Outside:
-                    raise
+        for p in tests[0][1]:
+            if isinstance(p, ast.Call) and attr_path(p.func) == ("range",) and len(p.args) == 2:
+                a, b = p.args
+                lows = [_lin(x, nsym) for x in a.args] if isinstance(a, ast.Call) and attr_path(a.func) == ("max",) \
+                    else [_lin(a, nsym)]
+                highs = [_lin(x, nsym) for x in b.args] if isinstance(b, ast.Call) and attr_path(b.func) == ("min",) \
+                    else [_lin(b, nsym)]
+                for lo in lows:
+                    for hi in highs:
+                        cons.extend(_constraint(lo, "Lt", hi))
+            elif isinstance(p, ast.Compare):
+                terms = [p.left] + list(p.comparators)
+                for x, op, y in zip(terms, p.ops, terms[1:]):
+                    on = type(op).__name__
+                    if on not in NEG:
+                        raise Outside("comparison %s" % unparse(p))
+                    cons.extend(_constraint(_lin(x, nsym), on, _lin(y, nsym)))
+            else:
+                raise Outside("intersection test %s" % unparse(p))
+        tests = [tests[0][0]]
     except Outside as e:
         raise AnalysisError("%s is outside the boundary-logic fragment: %s" % (key, e))
     got = _tight(cons)
-    ref = {("B", "STOP"): -1, ("START", "E"): -1, ("B", "E"): -1, ("START", "STOP"): -1}
-    chk.ob(rule, key + ":intersects-half-open", got == ref, f.loc(),
+    ref = {("B", "STOP"): -1, ("START", "E"): -1, ("B", "E"): -1}
+    extra_ok = {("START", "STOP"): -1}      # an empty query selects nothing either way
+    ok_ref = all(got.get(k) == v for k, v in ref.items()) and \
+        all(k in ref or extra_ok.get(k) == c for k, c in got.items())
+    chk.ob(rule, key + ":intersects-half-open", ok_ref, f.loc(),
            "nodes_on must keep exactly the addressed nodes of non-zero size whose range [B, B+size) "
            "intersects [START, STOP); the code keeps %s" % _show(got), 6)
     guard = any(isinstance(n, ast.Compare) and isinstance(n.ops[0], ast.IsNot)
